@@ -1,5 +1,6 @@
 import EngineModel.Impl.V2
 import Proofs.CursorLemmas
+import Proofs.CheckedArith
 set_option linter.unusedSimpArgs false
 namespace EngineModel.Impl.V2
 open Codec Cur EngineModel.V2
@@ -137,8 +138,9 @@ theorem encodeOvw_ok (v : Ovw) (hv : v.Valid) (extra : Bytes) :
   simp [ovw_enc_length, h3]
   omega
 
-theorem decodeOvw_eq (bs : Bytes) : decodeOvw bs = liftDec ovw bs := by
-  unfold decodeOvw
+theorem decodeOvw_eq (bs : Bytes) (hlen : bs.length < maxCount) : decodeOvw bs = liftDec ovw bs := by
+  rw [ArithZ.decodeOvw_eq_Z bs hlen]
+  unfold ArithZ.decodeOvwZ
   split
   · rename_i h
     unfold liftDec
